@@ -71,8 +71,16 @@ class SerialQueueImpl {
       }
 
       // If we got a nil function, the queue is shutting down.
-      if (!fn)
-        break;
+      if (!fn) {
+        // Operations added behind the shutdown marker (by the operation that
+        // was still running) must be executed too; move the marker behind
+        // them.
+        std::lock_guard<std::mutex> guard(operationsMutex);
+        if (operations.empty())
+          break;
+        operations.push_back({});
+        continue;
+      }
       
       // Execute the operation.
       fn();
